@@ -732,6 +732,115 @@ class PJoinBeginMethod(PJoinMethod):
                 "  | fuel+1, p, target, pref =>\n    " + self.block(self.fdef.body, self.default_end))
 
 
+class JoinBeginMethod(Method):
+    """`Join._begin_apply(lhs, rhs)` (T-f): `self` is a model `JoinOp` value `j`.  Monadic: `applied_common_columns`
+    and the property `common_columns` may raise.  Accepted beyond the common grammar: the unresolved test
+    `self.max_columns != self.min_columns`, the assignment from `self.applied_common_columns(lhs, rhs)`,
+    `dataclasses.replace(self, min_columns=A, max_columns=B)`, a guard `if not <operand>.columns >= self.common_columns:
+    raise ...`, the test `self.predicate.as_trivial() is True`, and returns of `IgnoreOne(<bool>)` / a join value."""
+
+    DICT = {
+        "self.predicate.columns_required": ("(Pred.columnsRequired j.pred)", "cols"),
+        "self.applied_columns(lhs, rhs)": ("(Cols.union (Rel.columns lhs) (Rel.columns rhs))", "cols"),
+        "lhs.columns": ("(Rel.columns lhs)", "cols"), "rhs.columns": ("(Rel.columns rhs)", "cols"),
+        "lhs.engine": ("(Rel.engine lhs)", "engine"), "rhs.engine": ("(Rel.engine rhs)", "engine"),
+        "lhs.is_join_identity": ("(Rel.isJoinIdentity lhs)", "bool"),
+        "rhs.is_join_identity": ("(Rel.isJoinIdentity rhs)", "bool"),
+    }
+
+    def __init__(self, cls):
+        self.cls = cls
+        self.cname = "Join"
+        self.name = "_begin_apply"
+        f = inspect.getattr_static(cls, "_begin_apply")
+        src = textwrap.dedent(inspect.getsource(f))
+        self.fdef = next(n for n in ast.walk(ast.parse(src)) if isinstance(n, ast.FunctionDef))
+        self.env = {}
+        self.counter = 0
+
+    def special(self, src):
+        return self.DICT.get(src)
+
+    def expr(self, e):
+        if isinstance(e, ast.Name) and e.id == "self":
+            return "j", "joinop"
+        src = ast.unparse(e)
+        if src in self.DICT:
+            return self.DICT[src]
+        return super().expr(e)
+
+    def block(self, stmts, rest_k):
+        if stmts:
+            s, tail = stmts[0], stmts[1:]
+            k = lambda: self.block(tail, rest_k)   # noqa: E731
+            if isinstance(s, ast.If):
+                tsrc = ast.unparse(s.test)
+                cond = None
+                if tsrc == "self.max_columns != self.min_columns":
+                    cond = "(!JoinOp.resolved j)"
+                elif tsrc == "self.predicate.as_trivial() is True":
+                    cond = "(Pred.asTrivial j.pred == some true)"
+                if cond is not None:
+                    saved = dict(self.env)
+                    a = self.block(s.body, k)
+                    self.env = dict(saved)
+                    b = self.block(s.orelse, k)
+                    self.env = saved
+                    return f"(if {cond} then {a} else {b})"
+                for side in ("lhs", "rhs"):
+                    if (tsrc == f"not {side}.columns >= self.common_columns" and not s.orelse and len(s.body) == 1
+                            and isinstance(s.body[0], ast.Raise)):
+                        raised = self.block(s.body, k)
+                        self.counter += 1
+                        v = f"common_{self.counter}"
+                        return (f"(match JoinOp.commonColumns j with | Except.error e => Except.error e "
+                                f"| Except.ok {v} => (if (!(Cols.subset {v} (Rel.columns {side}))) then {raised} "
+                                f"else {k()}))")
+            if isinstance(s, ast.Assign) and isinstance(s.targets[0], ast.Name):
+                name, vsrc = s.targets[0].id, ast.unparse(s.value)
+                if vsrc == "self.applied_common_columns(lhs, rhs)":
+                    self.counter += 1
+                    v = f"{name}_{self.counter}"
+                    self.env[name] = (v, "cols")
+                    return ("(match JoinOp.appliedCommonColumns j (Rel.columns lhs) (Rel.columns rhs) with "
+                            f"| Except.error e => Except.error e | Except.ok {v} => {k()})")
+                if vsrc == "self":
+                    self.env[name] = ("j", "joinop")
+                    return k()
+                if isinstance(s.value, ast.Call) and ast.unparse(s.value.func) == "dataclasses.replace":
+                    c = s.value
+                    kws = {kw.arg: kw.value for kw in c.keywords}
+                    if len(c.args) == 1 and ast.unparse(c.args[0]) == "self" and set(kws) == {"min_columns", "max_columns"}:
+                        a, at = self.expr(kws["min_columns"])
+                        b, bt = self.expr(kws["max_columns"])
+                        if at != "cols" or bt != "cols":
+                            raise Untranslatable("replaced common columns are not column sets")
+                        self.counter += 1
+                        v = f"{name}_{self.counter}"
+                        self.env[name] = (v, "joinop")
+                        return f"(let {v} : JoinOp := {{ j with minCols := {a}, maxCols := some {b} }}; {k()})"
+                    raise Untranslatable(f"dataclasses.replace: {vsrc[:60]}")
+        return super().block(stmts, rest_k)
+
+    def ret(self, e):
+        src = ast.unparse(e)
+        if src == "IgnoreOne(True)":
+            return "(Except.ok (BOp.ignoreOne true))"
+        if src == "IgnoreOne(False)":
+            return "(Except.ok (BOp.ignoreOne false))"
+        x, t = self.expr(e)
+        if t == "joinop":
+            return f"(Except.ok (BOp.join {x}))"
+        raise Untranslatable(f"return {src[:60]}")
+
+    def default_end(self):
+        raise Untranslatable("control reaches the end of the function")
+
+    def lean(self):
+        return ("def Join_begin_apply (j : JoinOp) (lhs rhs : Rel) : Except Err BOp :=\n  "
+                + self.block(self.fdef.body, self.default_end))
+
+
 REL_CTORS = {
     "LeafRelation": ".leaf _ _ _ _ _ _ _ _",
     "Materialization": ".mat _ _ {t}",
@@ -892,6 +1001,8 @@ def gen_rel_ops(problems: list[str]) -> str:
         ("PartialJoin._begin_apply", lambda: PJoinBeginMethod(PartialJoin),
          "def PartialJoin_begin_apply (fuel : Nat) (p : PJoin) (target : Rel) (pref : Option Engine) : "
          "Except Err (PJoin × Engine) :=\n  Except.error Err.fuel"),
+        ("Join._begin_apply", lambda: JoinBeginMethod(r.Join),
+         "def Join_begin_apply (j : JoinOp) (lhs rhs : Rel) : Except Err BOp :=\n  Except.error Err.fuel"),
         ("Chain._begin_apply", lambda: ChainMethod(r.Chain),
          "def Chain_begin_apply (lhs rhs : Rel) : Except Err BOp :=\n  Except.error Err.fuel"),
     ]
